@@ -589,6 +589,96 @@ Section Walk.
   Qed.
 End Walk.
 
+(* ---- the recursive method and the stack walk give the same answer *)
+Section RecEq.
+  Variable ob : value -> list nat.
+  Variable cl : classes.
+  Variable h : heap.
+
+  Definition rec_go (f : nat) :=
+    fix go (acts : list action) (vis : list nat) : option vres :=
+      match acts with
+      | [] => Some (VOk vis)
+      | AFail :: _ => Some (VErr vis)
+      | AVisit k :: r =>
+          match validate_rec ob cl h f vis k with
+          | Some (VOk vis') => go r vis'
+          | other => other
+          end
+      end.
+
+  Lemma run_more : forall fuel vis todo r k,
+    run ob cl h fuel vis todo = Some r -> run ob cl h (fuel + k) vis todo = Some r.
+  Proof.
+    induction fuel as [|f IH]; intros vis todo r k H; simpl in H; [discriminate|].
+    simpl. destruct todo as [|[|m] rest]; try exact H.
+    destruct (mem m vis); apply IH; exact H.
+  Qed.
+
+  Definition Pv (f : nat) : Prop :=
+    forall vis m r, validate_rec ob cl h f vis m = Some r ->
+      forall rest, exists k,
+        match r with
+        | VOk vis' => forall F, run ob cl h (k + F) vis (AVisit m :: rest) = run ob cl h F vis' rest
+        | VErr v => forall F, run ob cl h (S k + F) vis (AVisit m :: rest) = Some (VErr v)
+        end.
+  Definition Pg (f : nat) : Prop :=
+    forall acts vis r, rec_go f acts vis = Some r ->
+      forall rest, exists k,
+        match r with
+        | VOk vis' => forall F, run ob cl h (k + F) vis (acts ++ rest) = run ob cl h F vis' rest
+        | VErr v => forall F, run ob cl h (S k + F) vis (acts ++ rest) = Some (VErr v)
+        end.
+
+  Lemma Pv_Pg : forall f, Pv f -> Pg f.
+  Proof.
+    intros f Hv. unfold Pg. induction acts as [|[|m] acts IHa]; intros vis r H rest; simpl in H.
+    - inversion H; subst. exists 0%nat. intros F. reflexivity.
+    - inversion H; subst. exists 0%nat. intros F. reflexivity.
+    - destruct (validate_rec ob cl h f vis m) as [[vis1|v1]|] eqn:E; [| |discriminate].
+      + destruct (Hv _ _ _ E (acts ++ rest)) as [k1 Hk1]. simpl in Hk1.
+        destruct (IHa _ _ H rest) as [k2 Hk2]. destruct r as [vis'|v].
+        * exists (k1 + k2)%nat. intros F. change ((AVisit m :: acts) ++ rest) with (AVisit m :: acts ++ rest).
+          replace (k1 + k2 + F)%nat with (k1 + (k2 + F))%nat by lia. rewrite Hk1. apply Hk2.
+        * exists (k1 + k2)%nat. intros F. change ((AVisit m :: acts) ++ rest) with (AVisit m :: acts ++ rest).
+          replace (S (k1 + k2) + F)%nat with (k1 + (S k2 + F))%nat by lia. rewrite Hk1. apply Hk2.
+      + inversion H; subst. destruct (Hv _ _ _ E (acts ++ rest)) as [k1 Hk1]. simpl in Hk1.
+        exists k1. intros F. change ((AVisit m :: acts) ++ rest) with (AVisit m :: acts ++ rest). apply Hk1.
+  Qed.
+
+  Lemma Pv_all : forall f, Pv f.
+  Proof.
+    induction f as [|f IH]; intros vis m r H rest; [discriminate|].
+    pose proof (Pv_Pg f IH) as Hg.
+    cbn [validate_rec] in H. destruct (mem m vis) eqn:Em.
+    - inversion H; subst. exists 1%nat. intros F. cbn [Nat.add run]. rewrite Em. reflexivity.
+    - change (rec_go f (actions_of ob cl h m) (m :: vis) = Some r) in H.
+      destruct (Hg _ _ _ H rest) as [k Hk]. destruct r as [vis'|v].
+      + exists (S k). intros F. cbn [Nat.add run]. rewrite Em. apply Hk.
+      + exists (S k). intros F. cbn [Nat.add run]. rewrite Em. apply Hk.
+  Qed.
+
+  (* what the recursive method answers, the stack walk answers *)
+  Theorem validate_rec_run : forall fuel vis m r,
+    validate_rec ob cl h fuel vis m = Some r -> exists fuel', run ob cl h fuel' vis [AVisit m] = Some r.
+  Proof.
+    intros fuel vis m r H. destruct (Pv_all fuel vis m r H []) as [k Hk]. destruct r as [vis'|v].
+    - exists (k + 1)%nat. rewrite Hk. reflexivity.
+    - exists (S k + 0)%nat. apply Hk.
+  Qed.
+
+  Theorem validate_rec_run_fuel : forall fuel vis m r,
+    validate_rec ob cl h fuel vis m = Some r ->
+    run ob cl h (fuel_for ob cl h) vis [AVisit m] = Some r.
+  Proof.
+    intros fuel vis m r H. destruct (validate_rec_run _ _ _ _ H) as [f' Hf'].
+    destruct (run ob cl h (fuel_for ob cl h) vis [AVisit m]) as [r'|] eqn:E.
+    - pose proof (run_more _ _ _ _ f' E) as H1. pose proof (run_more _ _ _ _ (fuel_for ob cl h) Hf') as H2.
+      rewrite Nat.add_comm in H2. rewrite H1 in H2. exact H2.
+    - exfalso. eapply run_fuel_for; eauto.
+  Qed.
+End RecEq.
+
 Lemma closed_nil : forall ob cl h, closed_marks ob cl h [].
 Proof. intros ob cl h n a []. Qed.
 
@@ -776,3 +866,23 @@ Proof.
     repeat match goal with H : _ \/ _ |- _ => destruct H | H : False |- _ => contradiction end; subst;
     eexists; (split; [reflexivity|]); simpl; auto.
 Qed.
+
+Theorem recursive_validate_agrees : forall cl h fuel root r,
+  validate_rec objs cl h fuel [] root = Some r -> cfg_validate cl h root = Some r.
+Proof. intros cl h fuel root r H. unfold cfg_validate. eapply validate_rec_run_fuel. exact H. Qed.
+
+(* so the recursive method cannot accept a graph with a missing value either *)
+Corollary rec_missing_rejected : forall cl h fuel root m r,
+  validate_rec objs cl h fuel [] root = Some r ->
+  reach objs cl h root m -> lacks_required cl h m -> exists vis, r = VErr vis.
+Proof.
+  intros cl h fuel root m r H Hr Hl.
+  apply validate_rec_run_fuel in H.
+  destruct (run_rejects objs eq_refl cl h [] root m (closed_nil _ _ _) Hr Hl) as [vis Hv].
+  rewrite Hv in H. inversion H. eauto.
+Qed.
+
+Example validate_rec_ex :
+  validate_rec objs ex_classes ex_heap_list 4 [] 0%nat = Some (VErr [2; 1; 0]%nat) /\
+  validate_rec objs ex_classes ex_heap_ok 4 [] 0%nat = Some (VOk [2; 1; 0]%nat).
+Proof. split; vm_compute; reflexivity. Qed.
